@@ -53,6 +53,25 @@ func genC20Long(o *hx.Out, r *rand.Rand, tier string) {
 	}
 }
 
+// oracleWriter: the outcome of every Write call is scripted (exhausted: fails).
+type oracleWriter struct {
+	outcomes []bool
+	data     []byte
+}
+
+func (b *oracleWriter) Write(p []byte) (int, error) {
+	if len(b.outcomes) == 0 {
+		return 0, errors.New("scripted write failure")
+	}
+	ok := b.outcomes[0]
+	b.outcomes = b.outcomes[1:]
+	if !ok {
+		return 0, errors.New("scripted write failure")
+	}
+	b.data = append(b.data, p...)
+	return len(p), nil
+}
+
 type budgetWriter struct {
 	budget int
 	data   []byte
@@ -181,6 +200,42 @@ func genC20(o *hx.Out, tier string) {
 			if budget == 2*n {
 				file = bw.data
 			}
+		}
+		// a transient transport failure: exactly the k-th underlying Write fails, every other succeeds
+		// (the writer must not carry anything over from the failed entry into the next one)
+		for k := 0; k < 2*n; k++ {
+			oracle := make([]bool, 2*n+2)
+			otxt := "o"
+			for q := range oracle {
+				oracle[q] = q != k
+				if oracle[q] {
+					otxt += "1"
+				} else {
+					otxt += "0"
+				}
+			}
+			ow := &oracleWriter{outcomes: oracle}
+			w := &tlog.Writer{ByteWriter: ow, DialectRW: wdrw}
+			w.Initialize() //nolint:errcheck
+			var res []string
+			for _, e := range entries {
+				ec := *e
+				switch f := e.Frame.(type) {
+				case *frame.V1Frame:
+					c := *f
+					ec.Frame = &c
+				case *frame.V2Frame:
+					c := *f
+					ec.Frame = &c
+				}
+				res = append(res, hx.Safe(func() string {
+					if err := w.Write(&ec); err != nil {
+						return "err"
+					}
+					return "ok"
+				}))
+			}
+			o.Add("write with a transient failure", strings.Join(res, ",")+"|"+hx.Hex(ow.data), "tlogw", dn, otxt, strings.Join(texts, " "))
 		}
 		// read back whole, and at every cut offset
 		reads := n + 3
